@@ -30,12 +30,12 @@ import (
 
 type wHandler struct {
 	Name     string `json:"name"`
-	Sub      int    `json:"sub"`      // subscriber object index
+	Sub      int    `json:"sub"` // subscriber object index
 	SubTopic string `json:"subtopic"`
-	PubKind  int    `json:"pubkind"`  // 0 real, 1 AddNoPublisherHandler, 2 nil publisher
-	Pub      int    `json:"pub"`      // publisher object index (pubkind 0)
+	PubKind  int    `json:"pubkind"` // 0 real, 1 AddNoPublisherHandler, 2 nil publisher
+	Pub      int    `json:"pub"`     // publisher object index (pubkind 0)
 	PubTopic string `json:"pubtopic"`
-	Fn       int    `json:"fn"`       // identity of the handler function
+	Fn       int    `json:"fn"` // identity of the handler function
 }
 
 type wDelivery struct {
@@ -55,8 +55,8 @@ type wOp struct {
 	ID   int        `json:"id,omitempty"`   // middleware / decorator id
 	App  bool       `json:"app,omitempty"`  // middleware appends message 100+id to a successful result
 	D    *wDelivery `json:"d,omitempty"`
-	Grp  int        `json:"grp,omitempty"`  // consecutive ops with the same non-zero grp are ONE variadic call / one concurrent batch
-	Dup  bool       `json:"dup,omitempty"`  // addhandler: observed DuplicateHandlerNameError panic
+	Grp  int        `json:"grp,omitempty"` // consecutive ops with the same non-zero grp are ONE variadic call / one concurrent batch
+	Dup  bool       `json:"dup,omitempty"` // addhandler: observed DuplicateHandlerNameError panic
 }
 
 type wCopy struct {
@@ -72,13 +72,14 @@ type wCopy struct {
 }
 
 type wProgram struct {
-	Kind     string      `json:"kind"`
-	SubTy    []string    `json:"subty"` // StructName of each subscriber object
-	PubTy    []string    `json:"pubty"`
-	Ops      []*wOp      `json:"ops"`
-	Obs      [][]*wCopy  `json:"obs"` // per deliver op, in program order
-	Anomaly  []string    `json:"anomaly"`
-	NameIDs  map[string]int `json:"nameids"`
+	Kind    string         `json:"kind"`
+	SubTy   []string       `json:"subty"` // StructName of each subscriber object
+	PubTy   []string       `json:"pubty"`
+	Ops     []*wOp         `json:"ops"`
+	Obs     [][]*wCopy     `json:"obs"` // per deliver op, in program order
+	Anomaly []string       `json:"anomaly"`
+	NameIDs map[string]int `json:"nameids"`
+	Skipped bool           `json:"skipped"`
 }
 
 func (c *wCopy) rec(ev ...interface{}) {
@@ -203,7 +204,10 @@ type wRun struct {
 	outputs map[int][]*message.Message // delivery number -> messages its Publish call received (for chained deliveries)
 }
 
+var wAnomalies int32 // once the router misbehaves grossly the remaining programs are skipped (fail fast)
+
 func (r *wRun) anomaly(f string, a ...interface{}) {
+	atomic.AddInt32(&wAnomalies, 1)
 	r.mu.Lock()
 	r.p.Anomaly = append(r.p.Anomaly, fmt.Sprintf(f, a...))
 	r.mu.Unlock()
@@ -546,7 +550,15 @@ func wRunProgram(p *wProgram, in *script.Interner) {
 		case "start":
 			if !running {
 				running = true
-				go func() { runErr <- router.Run(ctx) }()
+				go func() {
+					defer func() {
+						if v := recover(); v != nil {
+							r.anomaly("Run panicked: %v", v)
+							runErr <- fmt.Errorf("panic: %v", v)
+						}
+					}()
+					runErr <- router.Run(ctx)
+				}()
 				select {
 				case <-router.Running():
 				case err := <-runErr:
@@ -556,8 +568,17 @@ func wRunProgram(p *wProgram, in *script.Interner) {
 					r.anomaly("router did not start")
 					return
 				}
-			} else if err := router.RunHandlers(ctx); err != nil {
-				r.anomaly("RunHandlers: %v", err)
+			} else {
+				func() {
+					defer func() {
+						if v := recover(); v != nil {
+							r.anomaly("RunHandlers panicked: %v", v)
+						}
+					}()
+					if err := router.RunHandlers(ctx); err != nil {
+						r.anomaly("RunHandlers: %v", err)
+					}
+				}()
 			}
 		case "deliver":
 			r.deliverBatch(group, &nDeliver)
@@ -1050,6 +1071,10 @@ func cmdC0809(args []string) error {
 		go func(p *wProgram) {
 			defer wg.Done()
 			defer func() { <-sem }()
+			if atomic.LoadInt32(&wAnomalies) > 12 {
+				p.Skipped = true
+				return
+			}
 			wRunProgram(p, in)
 		}(p)
 	}
